@@ -128,6 +128,26 @@ CHECKS = {
    note=COMMON_NOTE + "The hierarchical multiset-conservation statement itself is checked on every case, the theorems give its two halves (untouched members; moved payloads). "
         "re.fullmatch enters as a predicate evaluated by Python.",
    technique="Lean 4 proof (mutual induction over the dependency recursion) + correspondence + multiset conservation check on real output"),
+ "C06": dict(
+   text="Lean theorems: C06_aad (kernel-checked: the AAD bytes captured from the running encrypt script ARE the Enc_structure ['Encrypt', protected, h''] of the protected header "
+        "{1:3} that is published - the tie between the two sites that the tests lack), C06_algs, C06_split (generate-info: iv(12)||tag(16)||ct reassembles the blob, emitted "
+        "payload = blob without its first 12 bytes), C06_info_shape (strict reading of the info gives exactly IV, key id, key-wrap algorithm and CEK that went in, for all key "
+        "ids in [-2^64,2^64)), C06_decrypts (under the AES-GCM hypothesis, decrypting with the IV read from the info, the Enc_structure of the *published* header and "
+        "encrypted_content.bin split at 16 yields the firmware; all keys, nonces, plaintexts), C06_create_accepts. Tie: cmd_encrypt.main with the real script and KMS "
+        "(recorded), sizes 0..64 KiB+1, five digests; model vs real files; independent AESGCM.decrypt; generate-info on random blobs.",
+   design="4 C06",
+   note=COMMON_NOTE + "AES-GCM is a parameter with the hypothesis gcmDec k n a (gcmEnc k n a p) = p and 16-byte tags; cryptography's AESGCM is the oracle.",
+   technique="Lean 4 proof (kernel-checked constant, strict-decoder lemmas, parametric in AES-GCM) + correspondence + decryption oracle"),
+ "C14": dict(
+   text="Partial (entropy is runtime). Model: a state machine whose only state is the position in an entropy stream. Lean theorems: C14_iv_from_this_call (the info of a call "
+        "holds under key 5 exactly the 12 bytes drawn by this call, which are the nonce handed to AES-GCM), C14_no_reuse_of_draws (induction over the history: the i-th call "
+        "publishes the i-th window), C14_disjoint_ranges, C14_pairwise_distinct (under StreamFresh the published IVs of any history are pairwise distinct). No theorem covers "
+        "that the OS source does not repeat. Tie: os.urandom wrapped (not replaced): for each of 3000 (quick) / 10^5 (thorough) calls the published IV must be a window of this "
+        "call's draws and of no earlier call's; decryption with the published IV must succeed; identical firmware in one process and in separate CLI invocations; pairwise "
+        "comparison.",
+   design="4 C14",
+   note=COMMON_NOTE + "Hypothesis StreamFresh stands for the entropy source; observed, not proved.",
+   technique="Lean 4 proof (induction over the call history of an entropy-stream state machine) + history correspondence with recorded draws"),
 }
 
 NA_REASON = "check not yet built in this revision (work in progress; DESIGN.md section 4 describes the planned model and theorems)"
